@@ -543,6 +543,14 @@ FORMER = {
     "F76": {"module": "W DEFINITIONS AUTOMATIC TAGS ::= BEGIN T ::= SET { i INTEGER, e ENUMERATED { m, n } DEFAULT m } END", "type": "T",
             "ops": ["enc xer (set (i (int 1)))", "enc xer (set (i (int 1)) (e (enum 0)))", "enc cxer (set (i (int 1)))", "enc xer (set (i (int 1)) (e (enum 1)))"],
             "options_b": list(BASE) + [WIDE], "expect": {"enc xer (set (i (int 1)))": "ok " + b"<T>\n    <i>1</i>\n    <e><m/></e>\n</T>\n".hex()}},
+    # F77 / F49: an EXPLICIT-tagged inline INTEGER (lb..MAX) / ENUMERATED member is tagged once under every option set
+    "F77": {"module": "W DEFINITIONS ::= BEGIN S ::= SEQUENCE { a [5] EXPLICIT INTEGER (0..MAX), b [6] EXPLICIT INTEGER (7..MAX) OPTIONAL, "
+                      "c [7] EXPLICIT ENUMERATED { x, y } OPTIONAL, d [8] INTEGER (0..MAX) OPTIONAL } END", "type": "S",
+            "ops": ["enc der (seq (a (int 1)))", "enc der (seq (a (int 5)) (b (int 9)) (c (enum 1)) (d (int 3)))", "enc uper (seq (a (int 1)) (b (int 7)))"],
+            "options_b": list(BASE) + [WIDE], "expect": {"enc der (seq (a (int 1)))": "ok 3005a503020101"}},
+    "F77w": {"module": "W DEFINITIONS EXPLICIT TAGS ::= BEGIN S ::= SEQUENCE { a [0] INTEGER (0..MAX), b [1] INTEGER (5..MAX) OPTIONAL } END", "type": "S",
+             "ops": ["enc der (seq (a (int 5)))", "enc der (seq (a (int 5)) (b (int 6)))"],
+             "options_b": list(BASE) + [WIDE, "-fno-include-deps"], "expect": {"enc der (seq (a (int 5)))": "ok 3005a003020105"}},
     "F74": {"module": "W DEFINITIONS AUTOMATIC TAGS ::= BEGIN S ::= SEQUENCE { a INTEGER (0..7) } END", "type": "S",
             "ops": ["enc uper (seq (a (int 5)))", "enc oer (seq (a (int 5)))", "enc der (seq (a (int 5)))"], "options_b": list(BASE) + [NOCONS]},
     "F75": {"module": 'W DEFINITIONS AUTOMATIC TAGS ::= BEGIN N ::= NumericString (FROM("0".."3"|" ")) END', "type": "N",
